@@ -26,6 +26,7 @@ type SpecEnv struct {
 	fr      *Frame
 	depth   int
 	bound   int
+	boundNames map[string]bool
 }
 
 type specLoc struct {
@@ -445,7 +446,17 @@ func (e *SpecEnv) callExpr(n *ast.CallExpr) Val {
 		case "old":
 			o := *e
 			o.st = e.old
-			o.vars = e.oldVars
+			mv := map[string]Val{}
+			for k, v := range e.vars {
+				mv[k] = v
+			}
+			for k, v := range e.oldVars {
+				if _, bound := e.boundNames[k]; bound {
+					continue
+				}
+				mv[k] = v
+			}
+			o.vars = mv
 			return o.expr(n.Args[0])
 		case "implies":
 			return Val{T: implies(e.expr(n.Args[0]).T, e.expr(n.Args[1]).T), Ty: types.Typ[types.Bool]}
@@ -579,13 +590,11 @@ func (e *SpecEnv) quant(kind string, n *ast.CallExpr) Val {
 	}
 	vars[name] = Val{T: bv, Ty: types.Typ[types.Int]}
 	ne := e.with(vars)
-	// old() inside a quantifier body must still see the bound variable
-	ov := map[string]Val{}
-	for k, v := range e.oldVars {
-		ov[k] = v
+	bn := map[string]bool{name: true}
+	for k := range e.boundNames {
+		bn[k] = true
 	}
-	ov[name] = vars[name]
-	ne.oldVars = ov
+	ne.boundNames = bn
 	body := ne.stmts(fl.Body.List, boolT)
 	bodyT, bvN, loT, hiT := rebase(body.T, bv, lo.T, hi.T)
 	rng := fmt.Sprintf("(and (<= %s %s) (< %s %s))", loT, bvN, bvN, hiT)
@@ -984,8 +993,12 @@ func (u *Unit) specLoop(f *Frame, st *State, x ast.Expr, fn *ssa.Function, heade
 		pos token.Pos
 	}
 	best := map[string]cand{}
+	limit, hasLimit := f.loopLimit[header]
 	for a, c := range f.cells {
 		if c.name == "" {
+			continue
+		}
+		if hasLimit && a.Pos().IsValid() && a.Pos() >= limit {
 			continue
 		}
 		if b, ok := best[c.name]; !ok || a.Pos() > b.pos || (a.Pos() == b.pos && c.id > b.c.id) {
